@@ -8,11 +8,11 @@ KINDS = ["num", "zero", "int", "numstr", "true", "false", "none", "bad", "badtyp
 
 def gen_value(rng, kind):
     if kind == "num":
-        return rng.choice([rng.uniform(-200, 200), rng.uniform(-5, 5), float(rng.choice([90, -90, 180, 45, 360]))])
+        return rng.choice([rng.uniform(-200, 200), rng.uniform(-5, 5), float(rng.choice([90, -90, 180, 45, 360])), float(rng.choice([1, 1, -1, 2]))])      # incl. the values Python equates with True / False
     if kind == "zero":
         return rng.choice([0, 0.0])
     if kind == "int":
-        return rng.randint(-180, 180)
+        return rng.choice([rng.randint(-180, 180), 1, 1, -1])
     if kind == "numstr":
         return str(round(rng.uniform(-90, 90), 3))
     return {"true": True, "false": False, "none": None, "bad": "abc", "badtype": [1]}[kind]
